@@ -3,6 +3,7 @@ Process-wide library state that is held in plain class attributes (booleans, num
 checks must not depend on the private NAME of such a switch (e.g. the matrix negative-power flag), only on the fact that
 class-level scalars of the library's classes are process-wide state.
 """
+import copy
 import sys
 
 _SCALARS = (bool, int, float, complex, str, bytes, type(None))
@@ -52,3 +53,140 @@ def restore_class_scalars(snap, classes=None):
 
 
 _MISSING = object()
+
+
+# ---------------------------------------------------------------- module-level / class-level containers
+
+def library_containers():
+    """
+    Every mutable container (dict / list / set) held at module level or as a class attribute anywhere in the library
+    (found by scanning the imported modules of the tree under test, so containers introduced by an edit are included).
+    """
+    import sys
+    import types
+    found = []
+    seen = set()
+    for name, mod in list(sys.modules.items()):
+        if mod is None or not (name == 'mitxgraders' or name.startswith('mitxgraders.')):
+            continue
+        for attr, val in list(vars(mod).items()):
+            if isinstance(val, (dict, list, set)) and id(val) not in seen and not attr.startswith('__'):
+                seen.add(id(val))
+                found.append(('%s.%s' % (name, attr), val))
+            if isinstance(val, type) and val.__module__.startswith('mitxgraders'):
+                for cattr, cval in list(vars(val).items()):
+                    if isinstance(cval, (dict, list, set)) and id(cval) not in seen and not cattr.startswith('__'):
+                        seen.add(id(cval))
+                        found.append(('%s.%s.%s' % (name, val.__name__, cattr), cval))
+    return found
+
+
+LIB_STATE = None
+
+
+def snapshot_library_state():
+    global LIB_STATE
+    LIB_STATE = []
+    for name, obj in library_containers():
+        try:
+            LIB_STATE.append((name, obj, copy.deepcopy(obj)))
+        except Exception:
+            pass
+
+
+def ensure_snapshot():
+    """pristine snapshot, taken once per process (call before the first history is run)"""
+    if LIB_STATE is None:
+        snapshot_library_state()
+
+
+def clear_function_caches():
+    """functools caches held by module-level functions or class attributes of the library"""
+    for name, mod in list(sys.modules.items()):
+        if mod is None or not (name == 'mitxgraders' or name.startswith('mitxgraders.')):
+            continue
+        for val in list(vars(mod).values()):
+            cands = [val]
+            if isinstance(val, type) and getattr(val, '__module__', '').startswith('mitxgraders'):
+                cands += [getattr(v, '__func__', v) for v in vars(val).values()]
+            for c in cands:
+                cc = getattr(c, 'cache_clear', None)
+                if callable(cc) and not isinstance(c, type):
+                    try:
+                        cc()
+                    except Exception:
+                        pass
+
+
+def restore_library_state():
+    """puts every library-level container back to its pristine content, in place (identity preserved)"""
+    clear_function_caches()
+    for name, obj, saved in LIB_STATE:
+        try:
+            if obj == saved:
+                continue
+        except Exception:
+            pass
+        fresh = copy.deepcopy(saved)
+        if isinstance(obj, dict):
+            obj.clear()
+            obj.update(fresh)
+        elif isinstance(obj, list):
+            obj[:] = fresh
+        else:
+            obj.clear()
+            obj.update(fresh)
+
+
+class pristine_library(object):
+    """context: run something in the pristine library-level state, then put the current state back"""
+    def __enter__(self):
+        self.cur = []
+        for name, obj, saved in LIB_STATE:
+            try:
+                self.cur.append((obj, copy.deepcopy(obj)))
+            except Exception:
+                pass
+        restore_library_state()
+
+    def __exit__(self, *exc):
+        for obj, cur in self.cur:
+            if isinstance(obj, list):
+                obj[:] = cur
+            else:
+                obj.clear()
+                obj.update(cur)
+        return False
+
+
+
+
+def library_state_diff(canon):
+    """
+    canonical description of every tracked library-level container whose content differs from the pristine snapshot, plus
+    the fill level of function caches: part of a search state, so that hidden process-wide memory distinguishes states
+    """
+    out = []
+    for name, obj, saved in (LIB_STATE or []):
+        try:
+            same = (obj == saved)
+        except Exception:
+            same = False
+        if not same:
+            try:
+                out.append((name, canon(obj)))
+            except Exception:
+                out.append((name, repr(obj)[:500]))
+    for name, mod in list(sys.modules.items()):
+        if mod is None or not (name == 'mitxgraders' or name.startswith('mitxgraders.')):
+            continue
+        for attr, val in list(vars(mod).items()):
+            ci = getattr(val, 'cache_info', None)
+            if callable(ci) and not isinstance(val, type):
+                try:
+                    n = ci().currsize
+                except Exception:
+                    continue
+                if n:
+                    out.append(('%s.%s#cache' % (name, attr), n))
+    return tuple(sorted(out, key=repr))
